@@ -57,7 +57,133 @@ pub fn to_miette_report_with_formatter(
     let src = Arc::new(NamedSource::new(file, sanitized_source));
     let mut diag = build_diagnostic(err.without_snippet(), src, formatter);
     sanitize_diagnostic(&mut diag);
+    crop_long_labelled_lines(&mut diag);
     miette::Report::new(diag)
+}
+
+/// Lines longer than this many bytes are cropped around the labels they carry.
+const CROP_LINE_ABOVE_BYTES: usize = 1024;
+/// Characters kept on each side of a label in a cropped line.
+const CROP_LINE_RADIUS_CHARS: usize = 128;
+/// Stands for a removed part of a cropped line.
+const CROP_ELLIPSIS: &str = "...";
+
+/// Crop very long lines (minified input on a single line) around the labels they carry, like
+/// the plain snippets do, and move the labels accordingly.
+///
+/// Such a line cannot be read in a report anyway, and miette's graphical handler pads the
+/// marker line with a formatting width, which panics once a column exceeds `u16::MAX`.
+fn crop_long_labelled_lines(diag: &mut ErrorDiagnostic) {
+    for related in &mut diag.related {
+        crop_long_labelled_lines(related);
+    }
+    let text = diag.src.inner().as_str();
+
+    // Parts to keep, as (line start, line end, keep start, keep end): one per label that
+    // starts in a long line.
+    let mut keeps: Vec<(usize, usize, usize, usize)> = Vec::new();
+    for label in &diag.labels {
+        let start = label.offset().min(text.len());
+        let end = start.saturating_add(label.len()).min(text.len());
+        if !text.is_char_boundary(start) || !text.is_char_boundary(end) {
+            return;
+        }
+        let line_start = text[..start].rfind(['\n', '\r']).map_or(0, |i| i + 1);
+        let line_end = text[start..]
+            .find(['\n', '\r'])
+            .map_or(text.len(), |i| start + i);
+        if line_end - line_start <= CROP_LINE_ABOVE_BYTES {
+            continue;
+        }
+        let end = end.min(line_end);
+        let keep_start = text[line_start..start]
+            .char_indices()
+            .rev()
+            .nth(CROP_LINE_RADIUS_CHARS - 1)
+            .map_or(line_start, |(i, _)| line_start + i);
+        let keep_end = text[end..line_end]
+            .char_indices()
+            .nth(CROP_LINE_RADIUS_CHARS)
+            .map_or(line_end, |(i, _)| end + i);
+        keeps.push((line_start, line_end, keep_start, keep_end));
+    }
+    if keeps.is_empty() {
+        return;
+    }
+    keeps.sort_unstable();
+
+    // Removed ranges (the gaps between kept parts of a line), each replaced by the ellipsis.
+    let mut cuts: Vec<(usize, usize)> = Vec::new();
+    let mut i = 0;
+    while i < keeps.len() {
+        let (line_start, line_end, _, _) = keeps[i];
+        let mut covered = line_start;
+        while i < keeps.len() && keeps[i].0 == line_start {
+            let (_, _, keep_start, keep_end) = keeps[i];
+            if keep_start > covered && keep_start - covered > CROP_ELLIPSIS.len() {
+                cuts.push((covered, keep_start));
+            }
+            covered = covered.max(keep_end);
+            i += 1;
+        }
+        if line_end > covered && line_end - covered > CROP_ELLIPSIS.len() {
+            cuts.push((covered, line_end));
+        }
+    }
+    if cuts.is_empty() {
+        return;
+    }
+
+    let mut cropped = String::with_capacity(text.len());
+    let mut copied = 0;
+    for &(from, to) in &cuts {
+        cropped.push_str(&text[copied..from]);
+        cropped.push_str(CROP_ELLIPSIS);
+        copied = to;
+    }
+    cropped.push_str(&text[copied..]);
+
+    // A position outside the cuts moves left by what was removed before it.
+    let moved = |pos: usize| {
+        let removed: usize = cuts
+            .iter()
+            .take_while(|(_, to)| *to <= pos)
+            .map(|(from, to)| to - from - CROP_ELLIPSIS.len())
+            .sum();
+        pos - removed
+    };
+    let original = text;
+    for label in &mut diag.labels {
+        let start = label.offset();
+        let end = start.saturating_add(label.len());
+        // A label that reaches into a cut (a span running over several lines) ends there.
+        let end = cuts
+            .iter()
+            .find(|(from, to)| *from < end && start < *to)
+            .map_or(end, |(from, _)| (*from).max(start));
+        let span = SourceSpan::new(moved(start).into(), moved(end) - moved(start));
+        let mut text = label.label().map(str::to_owned);
+        // miette derives the column it prints from the cropped text: state the real one.
+        let line_start = original[..start.min(original.len())]
+            .rfind(['\n', '\r'])
+            .map_or(0, |i| i + 1);
+        if cuts
+            .iter()
+            .any(|(from, to)| *from >= line_start && *to <= start)
+        {
+            let column = original[line_start..start].chars().count() + 1;
+            text = Some(match text {
+                Some(text) => format!("{text} (column {column})"),
+                None => format!("column {column}"),
+            });
+        }
+        *label = if label.primary() {
+            LabeledSpan::new_primary_with_span(text, span)
+        } else {
+            LabeledSpan::new_with_span(text, span)
+        };
+    }
+    diag.src = Arc::new(NamedSource::new(diag.src.name(), cropped));
 }
 
 /// Messages and labels can reflect text of the input; neutralise control characters in them
